@@ -14,13 +14,13 @@ ASSUMPTIONS = ["weakest claim of the set: only the listed mechanisms are decided
 
 def run(F, rep):
     rep.engines.update(["E2-DT", "E1"])
-    dt_graph.combine_table(F, rep, "C04.1")
-    dt_tables.hash_step_table(F, rep, "C04.2")
-    dt_graph.no_pruning_in_filter(F, rep, "C04.2")
-    dt_compress.graph_driver_table(F, rep, "C04.3")
-    dt_tables.graph_step_table(F, rep, "C04.3")
-    dt_compress.extender_table(F, rep, "C04.3", graph_route=True)
-    dt_compress.graph_builder_table(F, rep, "C04.3")
-    dt_msp.piece_closure_table(F, rep, "C04.4")
-    dt_msp.slice_bounds_tables(F, rep, "C04.4")
-    dt_msp.score_closure_tables(F, rep, "C04.4")
+    rep.run(dt_graph.combine_table, F, rep, "C04.1")
+    rep.run(dt_tables.hash_step_table, F, rep, "C04.2")
+    rep.run(dt_graph.no_pruning_in_filter, F, rep, "C04.2")
+    rep.run(dt_compress.graph_driver_table, F, rep, "C04.3")
+    rep.run(dt_tables.graph_step_table, F, rep, "C04.3")
+    rep.run(dt_compress.extender_table, F, rep, "C04.3", graph_route=True)
+    rep.run(dt_compress.graph_builder_table, F, rep, "C04.3")
+    rep.run(dt_msp.piece_closure_table, F, rep, "C04.4")
+    rep.run(dt_msp.slice_bounds_tables, F, rep, "C04.4")
+    rep.run(dt_msp.score_closure_tables, F, rep, "C04.4")
